@@ -13,6 +13,26 @@ ALL = [f"C{n:02d}" for n in range(1, 21)]
 
 # id -> (level category, level text, level note, technique, design ref)
 CHECKS: dict[str, tuple[str, str, str, str, str]] = {
+    "C01": (
+        "exploration",
+        "Seeded random DAG programs over the whole operation alphabet (sharing, 1..3 outputs, "
+        "outputs that are inputs, zero-size arrays, scalars, six dtypes) and systematic single "
+        "operations are replayed through the public API, deduplicated, compiled by the real "
+        "generate_loopy with a harness-side C target + gcc and EXECUTED on 2-3 input valuations "
+        "(normal, injective, NaN/inf for the NaN-aware fragment); every output is compared "
+        "with the NumPy mirror: declared shape/dtype, exact values for integer/boolean, "
+        "scale-aware tolerance otherwise; any exception in generation/scheduling/compilation "
+        "is a violation; outputs are also supplied in reversed order. In addition every "
+        "generated kernel's instruction/dependency structure is model-checked by TLC "
+        "(spec/PtKernel.tla) under ALL instruction orders its depends_on edges allow.",
+        "Floating-point values are sampled (the textbook wrong target for TLC); the array-level "
+        "semantics is decided symbolically elsewhere (C02/C05). Trusted: NumPy, gcc, loopy's "
+        "scheduling and C code generation, the harness shims in ptverif/cexec.py. The kernel "
+        "model is at variable granularity.",
+        "differential execution of generated C code against NumPy over generated programs + "
+        "TLC model checking of every generated kernel's dependency graph (PtKernel) over all "
+        "admissible instruction orders",
+        "DESIGN.md section 4 C01"),
     "C02": (
         "model_checking",
         "Every instance of the bounded parameter scope of each high-level node kind is "
